@@ -79,6 +79,22 @@ type OpObs struct {
 	Pending []PendObs `json:"pending,omitempty"`
 	RnField uint32    `json:"rn"`
 	Vars    *Snap     `json:"vars,omitempty"`
+	// Push: what the TransitionTasks message of a real START_ACTIVITY / STOP_ACTIVITY transition
+	// told the tasks about the run (nil: no message seen)
+	Push *Snap `json:"push,omitempty"`
+}
+
+// pushOf projects the argument map of a transition message to the run variables
+// (Rn = runNumber; Rn2 unused).
+func pushOf(args map[string]string) *Snap {
+	g := func(k string) string {
+		if v, ok := args[k]; ok {
+			return v
+		}
+		return absent
+	}
+	return &Snap{Rn: g("runNumber"), Rn2: absent, Sosor: g("run_start_time_ms"), Eosor: g("run_start_completion_time_ms"),
+		Soeor: g("run_end_time_ms"), Eoeor: g("run_end_completion_time_ms")}
 }
 
 type Obs struct {
